@@ -77,4 +77,17 @@ func nitrogenDesignKernel(c *core.Ctx, worker string, invariants []string) {
 		c.TracesOK += n / 2
 	}
 	c.Evals += n / 2
+	// model equality (informational): the ledger residual is exactly what the clamp added, reconstructed from the routine's
+	// own dispersion / convection arrays
+	if c.Replay == "" {
+		d := c.TLC(core.TLCOpts{Module: "Trace_Nmove", Cfg: "Trace_Nmove_drift.cfg", Kind: "trace-drift", Workers: 1, Timeout: 30 * time.Minute, Heap: "8g",
+			Files: map[string]string{"trace.ndjson": trace}})
+		if d.IsViolation() {
+			l, _ := d.AliasInt("l")
+			fmt.Printf("MODEL-DRIFT module=Nitrogen statement=%s line=%d (the transport routine no longer computes its clamp as the model reconstructs it)\n", d.Violated, l-1)
+			c.Cover("model_drift_clamp_reconstruction", l-1)
+		} else if d.OK() {
+			c.Cover("model_drift_clamp_reconstruction", 0)
+		}
+	}
 }
